@@ -138,9 +138,11 @@ func (b gatedBot) GetMove(ctx context.Context, p *tak.Position, mine, theirs tim
 
 // ---- quiescence
 
+// The wait reasons of a goroutine parked by the bot's own synchronisation.  NOT "semacquire": that is
+// also the reason shown by a goroutine whose allocation wants to start a GC cycle while this very
+// dump holds the world stopped (seen 8 times in 20 000 runs) - such a goroutine is about to run on.
 var blockedStates = map[string]bool{
-	"chan receive": true, "chan send": true, "select": true,
-	"sync.Mutex.Lock": true, "semacquire": true,
+	"chan receive": true, "chan send": true, "select": true, "sync.Mutex.Lock": true,
 	"chan receive (nil chan)": true, "chan send (nil chan)": true, "select (no cases)": true,
 }
 
@@ -186,38 +188,34 @@ var dumpPool = sync.Pool{New: func() interface{} { b := make([]byte, 1<<16); ret
 
 // settle waits until the session is quiescent; false = it did not become so (reported as hang).
 func (s *botSess) settle() bool {
+	ok, _ := s.settleN()
+	return ok
+}
+
+// settleN also reports how many goroutines of the session (M and thinkers) exist.
+func (s *botSess) settleN() (bool, int) {
 	bp := dumpPool.Get().(*[]byte)
 	defer dumpPool.Put(bp)
-	deadline := time.Now().Add(10 * time.Second)
+	var deadline time.Time
 	for i := 0; ; i++ {
+		runtime.Gosched() // let whatever the last event made runnable run; the dump below decides
 		n := runtime.Stack(*bp, true)
 		for n == len(*bp) {
 			*bp = make([]byte, 2*len(*bp))
 			n = runtime.Stack(*bp, true)
 		}
-		q, _ := s.scanDump((*bp)[:n])
+		q, live := s.scanDump((*bp)[:n])
 		if q {
-			return true
+			return true, live
+		}
+		if i == 50 {
+			deadline = time.Now().Add(10 * time.Second)
 		}
 		if i > 50 && time.Now().After(deadline) {
 			s.hung = true
-			return false
+			return false, live
 		}
-		runtime.Gosched()
 	}
-}
-
-// liveGoroutines: M and thinkers still around
-func (s *botSess) liveGoroutines() int {
-	bp := dumpPool.Get().(*[]byte)
-	defer dumpPool.Put(bp)
-	n := runtime.Stack(*bp, true)
-	for n == len(*bp) {
-		*bp = make([]byte, 2*len(*bp))
-		n = runtime.Stack(*bp, true)
-	}
-	_, live := s.scanDump((*bp)[:n])
-	return live
 }
 
 // ---- lifecycle
@@ -281,7 +279,7 @@ func (s *botSess) shutdown() {
 		close(s.lines)
 	}
 	for i := 0; i < 10000; i++ {
-		s.settle()
+		ok, live := s.settleN()
 		s.mu.Lock()
 		c := s.cur
 		s.mu.Unlock()
@@ -289,10 +287,9 @@ func (s *botSess) shutdown() {
 			c.gate <- tak.Move{}
 			continue
 		}
-		if s.liveGoroutines() == 0 {
+		if live == 0 || !ok {
 			return
 		}
-		runtime.Gosched()
 	}
 }
 
@@ -453,7 +450,14 @@ func init() {
 		r := "-"
 		switch a[0] {
 		case "deliver":
-			raw, err := hex.DecodeString(a[1])
+			if len(a) < 2 {
+				return "bad-op"
+			}
+			var raw []byte
+			var err error
+			if a[1] != "-" { // "-" is the empty line
+				raw, err = hex.DecodeString(a[1])
+			}
 			if err != nil {
 				return "bad-op"
 			}
